@@ -310,7 +310,7 @@ impl<V> Item<V> {
 pub(crate) struct CacheProcessor<V, U, CB, S> {
     pub(crate) insert_buf_rx: Receiver<Item<V>>,
     pub(crate) stop_rx: Receiver<()>,
-    pub(crate) clear_rx: UnboundedReceiver<()>,
+    pub(crate) clear_rx: UnboundedReceiver<Signal>,
     pub(crate) metrics: Arc<Metrics>,
     pub(crate) store: Arc<ShardedMap<V, U, S, S>>,
     pub(crate) policy: Arc<LFUPolicy<S>>,
@@ -370,7 +370,7 @@ pub struct Cache<
 
     pub(crate) stop_tx: Sender<()>,
 
-    pub(crate) clear_tx: UnboundedSender<()>,
+    pub(crate) clear_tx: UnboundedSender<Signal>,
 
     pub(crate) callback: Arc<CB>,
 
@@ -443,15 +443,14 @@ where
         self.clear_in()
     }
 
+    // Ask the processing thread to drain the insert buffer and to empty the policy,
+    // the store and the metrics, and wait until it has done so.
     fn clear_in(&self) -> Result<(), CacheError> {
-        // stop the process item thread.
-        self.clear_tx.send(()).map_err(|e| {
+        let wg = WaitGroup::new();
+        self.clear_tx.send(Signal::new(&wg)).map_err(|e| {
             CacheError::SendError(format!("fail to send clear signal to working thread {}", e))
         })?;
-
-        self.policy.clear();
-        self.store.clear();
-        self.metrics.clear();
+        wg.wait();
 
         Ok(())
     }
@@ -634,7 +633,7 @@ where
         policy: Arc<LFUPolicy<S>>,
         insert_buf_rx: Receiver<Item<V>>,
         stop_rx: Receiver<()>,
-        clear_rx: UnboundedReceiver<()>,
+        clear_rx: UnboundedReceiver<Signal>,
         metrics: Arc<Metrics>,
         callback: Arc<CB>,
     ) -> Self {
@@ -666,10 +665,11 @@ where
                         tracing::error!("fail to handle insert event: {}", e);
                     }
                 },
-                recv(self.clear_rx) -> _ => {
+                recv(self.clear_rx) -> signal => {
                     if let Err(e) = self.handle_clear_event() {
                         tracing::error!("fail to handle clear event: {}", e);
                     }
+                    drop(signal);
                 },
                 recv(ticker) -> msg => {
                     if let Err(e) = self.handle_cleanup_event(msg) {
@@ -687,7 +687,11 @@ where
 
     #[inline]
     pub(crate) fn handle_clear_event(&mut self) -> Result<(), CacheError> {
-        CacheCleaner::new(self).clean()
+        let res = CacheCleaner::new(self).clean();
+        self.policy.clear();
+        self.store.clear();
+        self.metrics.clear();
+        res
     }
 
     #[inline]
